@@ -29,9 +29,11 @@ BODIES = [
     "if True:\n    text = '£' * 3\nelse:\n    text = ''\n",
 ]
 FIRST_LINES = [None, '#!/usr/bin/env python', '#!/usr/bin/python3 -u', '#! /bin/sh ', '#!/usr/bin/pythön', '#!', '# not a shebang',
-               '#!/usr/bin/python -*- coding: {ENC} -*-', '#!/usr/bin/env python3 \x0c -x', '#!/bin/sh\x0b\x1c', '#!/usr/bin/python \x85 \u2028 x']
+               '#!/usr/bin/python -*- coding: {ENC} -*-', '#!/usr/bin/env python3 \x0c -x', '#!/bin/sh\x0b\x1c', '#!/usr/bin/python \x85 \u2028 x',
+               '#!/usr/bin/env python3 # \u20ac \u0153 \u017d']      # characters iso-8859-15 / cp1252 place where latin-1 has others
 ENCODINGS = [('utf-8', None, False), ('utf-8', None, True), ('utf-8', 'utf-8', False), ('latin-1', 'latin-1', False),
-             ('cp1252', 'cp1252', False), ('iso-8859-15', 'iso-8859-15', False)]
+             ('cp1252', 'cp1252', False), ('iso-8859-15', 'iso-8859-15', False), ('iso-8859-15', 'ISO_8859_15', False),
+             ('iso-8859-2', 'iso-8859-2', False), ('latin-1', 'iso-latin-1-unix', False), ('utf-8', 'utf-8-unix', False)]
 NEWLINES = ['\n', '\r\n', '\r']
 
 
